@@ -341,7 +341,7 @@ CHECKS["C14"] = {
 
 CAT_ROWS = ["skip>htons", "setattr>delay>idem", "idem", "skip", "htons", "delay", "setattr", "setflowdef", "probe_uref", "match_attr", "null", "dup", "time_limit", "genaux",
             "buffer", "rate_limit", "qsink", "agg", "chunk", "ts_sync", "ts_check", "ts_align"]
-CAT_HEAVY = {"buffer": 1}
+CAT_HEAVY = {"buffer": 1, "setattr>delay>idem": 1}
 
 def _cat_jobs(oracle, tier, rows=CAT_ROWS, pools=(0, 2)):
     q = tier == "quick"
@@ -352,7 +352,7 @@ def _cat_jobs(oracle, tier, rows=CAT_ROWS, pools=(0, 2)):
             jobs.append(("pipex_cat", ["--row", r, "--oracle", oracle, "--pool", pool, "--depth", d, "--deadline", 75 if q else 840]))
     return jobs
 
-_CAT_BOUNDS = {"quick": "22 catalogue rows (20 pipes + 2 chains) x pool depth {0,2}: every sequence of up to 5 operations (4 for buffer) over the row's alphabet "
+_CAT_BOUNDS = {"quick": "22 catalogue rows (20 pipes + 2 chains) x pool depth {0,2}: every sequence of up to 5 operations (4 for buffer and the 3-pipe chain) over the row's alphabet "
                         "(set_flow_def F1/F2/foreign, 4 input shapes incl. empty and 2-segment buffers, set_output S0/S1(rejecting)/NULL, sink answer toggle, flush, "
                         "every option setter x 3-4 values, subpipe alloc/set_output/release, pump dispatch, release), followed by release of everything and a run of the event loop to quiescence",
                "thorough": "same alphabet, one operation deeper"}
@@ -480,6 +480,9 @@ def _load_fragment(pid, path):
     with open(path) as fh:
         exec(compile(fh.read(), path, "exec"), g)
     HARNESSES.update(g["HARNESS"])
+    if "C01_EXTRA_JOBS" in g:      # accounting-only runs reported under C01
+        for tier in ("quick", "thorough"):
+            CHECKS["C01"]["jobs"][tier] = CHECKS["C01"]["jobs"][tier] + list(g["C01_EXTRA_JOBS"][tier])
     c = dict(g["CHECK"])
     c.setdefault("assumptions", DEFAULT_ASSUME)
     c.setdefault("design_ref", "DESIGN.md section 3 " + pid)
@@ -487,7 +490,7 @@ def _load_fragment(pid, path):
 
 import os as _os
 _frag_dir = _os.path.join(_os.path.dirname(_os.path.dirname(_os.path.abspath(__file__))), "harness")
-FRAGMENTS = ["C15", "C16"]
+FRAGMENTS = ["C15", "C16", "C17"]
 for _pid in FRAGMENTS:
     _f = _os.path.join(_frag_dir, _pid.lower() + ".registry.py")
     if _os.path.exists(_f):
